@@ -403,6 +403,13 @@ Proof.
       rewrite nth_setl in X1. rewrite Nat.eqb_refl in X1. apply Nat.ltb_lt in Hr'. rewrite Hr' in X1. simpl in X1. unfold getr in X1. congruence.
     + armed_leaf Inv.
   - (* FCleanStart *)
+    destruct (Nat.eqb arg 1).
+    { (* the run gives up: only a cancelled rerunner's run does *)
+      destruct (r_cancel (getr s r)) eqn:Cn; [|discriminate]. inversion H; subst; clear H. simpl.
+      eapply armed_transfer; [ | | | | | exact Inv]; [apply same_ihr_refl | lia | apply same_rrs_setl; repeat split; left; reflexivity | frames_ok | ].
+      intros r' Hr' X1 _. simpl. destruct (Nat.eqb r' r) eqn:E; [|rewrite ?count_app; simpl; lia].
+      apply Nat.eqb_eq in E. subst r'. exfalso.
+      rewrite nth_setl in X1. rewrite Nat.eqb_refl in X1. apply Nat.ltb_lt in Hr'. rewrite Hr' in X1. simpl in X1. unfold getr in *. congruence. }
     destruct (r_clock (getr s r)); [discriminate|]. inversion H; subst; clear H. simpl. armed_leaf Inv.
   - (* FClean *)
     destruct ks as [|k ks'].
